@@ -57,12 +57,23 @@ def check (d : Desc) (n : Net) : List Finding :=
         fnd "router-count" r s!"{(rts.filter (· == r)).length} routers named {r}"
     let rtX := (rts.filter (fun r => !d.routerNodes.contains r)).map fun r =>
         fnd "router-extra" r "router that the description does not contain"
-    -- each network interface hangs on exactly one router port
+    -- each network interface hangs on exactly the router ports the description pairs it with
+    -- (one, normally; none when two endpoints are wired back to back)
     let niAttach := expChims.filterMap fun c =>
-      match ports.filter (fun (_, _, u) => u == c) with
-      | [_] => none
-      | l => some (fnd "ni-attachment" c s!"attached to {l.length} router ports")
-    missing ++ extra ++ niF ++ niX ++ rtF ++ rtX ++ niAttach
+      let exp := (links.filter fun l => (l.a == c && isRouterName n l.b) || (l.b == c && isRouterName n l.a)).length
+      let got := (ports.filter (fun (_, _, u) => u == c)).length
+      if got == exp && (links.filter fun l => l.a == c || l.b == c).length == 1 then none
+      else some (fnd "ni-attachment" c s!"attached to {got} router ports, the description pairs it with {exp} router(s)")
+    -- links between two network interfaces
+    let niNi := links.flatMap fun l =>
+      if !isRouterName n l.a && !isRouterName n l.b then
+        match Hw.findInst n l.a, Hw.findInst n l.b with
+        | some ca, some cb =>
+          (if Hw.inject n reqF ca == some (.chimney l.b) && Hw.inject n reqF cb == some (.chimney l.a) then []
+           else [fnd "link-missing" s!"{l.a}<->{l.b}" "the two network interfaces are not wired to each other"])
+        | _, _ => [fnd "link-missing" s!"{l.a}<->{l.b}" "missing network interface"]
+      else []
+    missing ++ extra ++ niF ++ niX ++ rtF ++ rtX ++ niAttach ++ niNi
 
 end C06
 
